@@ -39,7 +39,7 @@ FN_CONV = 'mc.checks.c10_sources:case_conv'
 FN_MAG = 'mc.checks.c10_sources:case_mag'
 FN_DISP = 'mc.checks.c10_sources:case_dispatch'
 
-STRENGTHS = (1.0, 2.5, (1.0, 2.0))       # (re, im) = complex strength 1+2j
+STRENGTHS = (1.0, 2.5, (1.0, 2.0), (3e-15, 2e-15))   # (re, im): 1+2j and a very weak complex current
 FREQS = (1.0, -1.0, None)
 COMBOS = [(s, f) for s in STRENGTHS for f in FREQS]
 AZIMUTHS = (0.0, 90.0, 180.0, -90.0, 45.0, -135.0)
@@ -499,7 +499,7 @@ def case_dipole(c):
     def make(s):
         return emg3d.TxElectricDipole(pts, strength=s)
 
-    combos = COMBOS if c.get('nc', 9) >= 9 else rotating(c['i'], c['nc'])
+    combos = COMBOS if c.get('nc', 9) >= len(COMBOS) else rotating(c['i'], c['nc'])
     try:
         res = run_wire_like(grid, make, pts, combos, 'dipole')
     except ValueError as e:
